@@ -1,6 +1,7 @@
 (* NoopProofs.v — property C13: rejected and no-op calls leave no trace. *)
 From Coq Require Import Lia ZArith ZifyN ZifyNat ZifyBool.
 From MRL Require Import Bytes BytesProofs Params Names Frame Record Mem Rolling Log Driver.
+From MRL Require Export Hist.
 
 Arguments N.add : simpl never.
 Arguments N.eqb : simpl never.
@@ -51,12 +52,6 @@ Proof.
     destruct (N.ltb_spec p (next_position m)) as [Hlt|_]; [lia|reflexivity].
 Qed.
 
-(* the outcome carries wal_bytes_written = 0 wherever it has that field *)
-Definition outcome_bytes (o : outcome) : option N :=
-  match o with
-  | OutCreate n | OutDelete n | OutAppend _ n | OutTruncate _ n => Some n
-  | _ => None
-  end.
 
 Theorem noop_zero_bytes : forall st o out,
   noop_call st o out -> outcome_bytes out = Some 0 \/ outcome_bytes out = None.
@@ -122,33 +117,14 @@ Proof.
   - cbn in H. contradiction.
 Qed.
 
-(* Consequence for histories: inserting such a call anywhere changes nothing that follows. *)
-Fixpoint run (st : state) (h : list (op * bool)) : state * list outcome :=
-  match h with
-  | [] => (st, [])
-  | (o, tick) :: r =>
-      let '(st1, out) := step P st o tick in
-      let '(st2, outs) := run st1 r in (st2, out :: outs)
-  end.
-
-Lemma run_app st h1 h2 :
-  run st (h1 ++ h2) =
-  let '(st1, o1) := run st h1 in let '(st2, o2) := run st1 h2 in (st2, o1 ++ o2).
-Proof.
-  revert st; induction h1 as [|[o t] h1 IH]; intros st; cbn [app run].
-  - destruct (run st h2); reflexivity.
-  - destruct (step P st o t) as [st1 out]. rewrite IH.
-    destruct (run st1 h1) as [st2 o1]. destruct (run st2 h2) as [st3 o2]. reflexivity.
-Qed.
-
 Theorem noop_erasable : forall st h1 o tick h2 out,
-  noop_call (fst (run st h1)) o out ->
-  fst (run st (h1 ++ (o, tick) :: h2)) = fst (run st (h1 ++ h2)).
+  noop_call (fst (run P st h1)) o out ->
+  fst (run P st (h1 ++ (o, tick) :: h2)) = fst (run P st (h1 ++ h2)).
 Proof.
   intros st h1 o tick h2 out H. rewrite !run_app.
-  destruct (run st h1) as [st1 o1]. cbn [fst] in H. cbn [run].
+  destruct (run P st h1) as [st1 o1]. cbn [fst] in H. cbn [run].
   rewrite (noop_same_state _ _ _ tick H).
-  destruct (run st1 h2) as [st2 o2]. reflexivity.
+  destruct (run P st1 h2) as [st2 o2]. reflexivity.
 Qed.
 
 (* the world of the drivers: nothing is added to the trace, the directory is unchanged *)
